@@ -8,7 +8,16 @@ namespace hm {
 static World* g_world = nullptr;
 
 World* cur() { return g_world; }
-void World::fire_armed_ok() { if (!armed_ok) return; int g = armed_ok - 1; armed_ok = 0; trompeloeil::set_reporter(make_reporter_fwd(g), make_ok_reporter_fwd(g)); }
+void World::fire_armed_ok() {
+  if (!armed_ok) return;
+  if (armed_ok == 10) {   // re-enters the library: the call being reported is made once more from inside the OK callback
+    armed_ok = 0; ++depth; int outer_fn = callfn;
+    try { call_fn(callobj, callfn, calla1, calla2); } catch (...) { --depth; callfn = outer_fn; throw; }
+    --depth; callfn = outer_fn;
+    return;
+  }
+  int g = armed_ok - 1; armed_ok = 0; trompeloeil::set_reporter(make_reporter_fwd(g), make_ok_reporter_fwd(g));
+}
 
 void RecTracer::trace(char const* file, unsigned long line, std::string const& call) {
   w->traces.push_back({idx, file ? file : "", line, call});
@@ -207,7 +216,7 @@ Outcome World::apply(const Op& op) {
       }
       case OP_RELEASE: sort_reports = armed != 0; if (op.k1 == 1) during_unwinding([&] { e[op.slot].reset(); }); else e[op.slot].reset(); break;
       case OP_CALL: {
-        callobj = op.obj; callfn = op.fn;
+        callobj = op.obj; callfn = op.fn; calla1 = op.a1; calla2 = op.a2;
         try {
           if (op.k1 == 1) { try { throw 42; } catch (int) { o.retv = call_fn(op.obj, op.fn, op.a1, op.a2); } }  // the call is made while an exception is being handled
           else o.retv = call_fn(op.obj, op.fn, op.a1, op.a2);
@@ -249,7 +258,8 @@ Outcome World::apply(const Op& op) {
         // calling it s2), the moved-from source object is parked until the world is dismantled
         *seq[op.s1] = std::move(*seq[op.s2]);
         std::swap(seq[op.s1], seq[op.s2]);
-        parked_seq.push_back(std::move(seq[op.s1]));
+        if (op.k1 == 2) seq[op.s1].reset();   // the moved-from source object dies at once: an empty shell, nothing to report
+        else parked_seq.push_back(std::move(seq[op.s1]));
         break;
       case OP_NEW_WATCHED: w[op.obj].reset(new WObj); break;
       case OP_DELETE_WATCHED: sort_reports = true; if (op.k1 == 1) during_unwinding([&] { w[op.obj].reset(); }); else w[op.obj].reset(); break;
